@@ -5,7 +5,7 @@ CONSTANTS
   Types = {"U", "R", "D"}
   Froms <- FromsQuick
   Untils = {0, 1, 2, 3, 4, 5, 6}
-  Times = {0, 1, 2, 3, 4, 5, 6, 7, 8}
+  Times = {0, 1, 2, 3, 4, 5, 6, 7, 8, 2000000}
   Deltas = {2, 5, 1000000}
   Decoys = {0, 1}
 INVARIANT WindowEffect
